@@ -199,3 +199,178 @@ Theorem C17_byte_mask_accepted_iff : forall imm,
   is_byte_mask_imm imm = true <-> exists j, 0 <= j < 256 /\ imm = expand_byte_mask 8 j.
 Proof. exact byte_mask_accepted_iff. Qed.
 Print Assumptions C17_byte_mask_accepted_iff.
+
+(* ---------------------------------------------------------------------------------------------------------------- *)
+(* round 2 *)
+From Verif Require Import Codec.A32ImmProofs Codec.RangeModel Codec.RangeProofs Codec.T32FixModel Codec.T32FixProofs.
+
+(* A32 modified immediates (arm::Utils::encode_aarch32_imm): exact in both directions, for EVERY value *)
+Theorem C17_a32_imm_sound : forall v e, 0 <= v -> encode_aarch32_imm v = Some e -> arm_expand_imm e = v /\ 0 <= e < 2 ^ 12.
+Proof. exact a32_imm_sound. Qed.
+Print Assumptions C17_a32_imm_sound.
+
+Theorem C17_a32_imm_complete : forall imm12, 0 <= imm12 < 4096 ->
+  exists e, encode_aarch32_imm (arm_expand_imm imm12) = Some e /\ arm_expand_imm e = arm_expand_imm imm12.
+Proof. exact a32_imm_complete. Qed.
+Print Assumptions C17_a32_imm_complete.
+
+Theorem C17_a32_imm_refused_iff : forall v, 0 <= v ->
+  (encode_aarch32_imm v = None <-> ~ exists imm12, 0 <= imm12 < 4096 /\ arm_expand_imm imm12 = v).
+Proof. exact a32_imm_refused_iff. Qed.
+Print Assumptions C17_a32_imm_refused_iff.
+
+(* A32 ADR (A1 ADD / A2 SUB form, magnitude as modified immediate): round trip and exact refusal *)
+Theorem C17_a32_adr_roundtrip : forall f off m,
+  is_a32_adr_fmt f -> int64 off -> encode_offset f off = Some m ->
+  decode_a32_adr f m * 2 ^ discard f = off /\ 0 <= m < 2 ^ 32.
+Proof. exact a32_adr_roundtrip. Qed.
+Print Assumptions C17_a32_adr_roundtrip.
+
+Theorem C17_a32_adr_refused_iff : forall f off,
+  is_a32_adr_fmt f -> int64 off ->
+  (encode_offset f off = None <->
+   ~ (Z.abs off mod 2 ^ discard f = 0 /\ Z.abs off / 2 ^ discard f < 2 ^ bits f /\
+      exists imm12, 0 <= imm12 < 4096 /\ arm_expand_imm imm12 = Z.abs off / 2 ^ discard f)).
+Proof. exact a32_adr_refused_iff. Qed.
+Print Assumptions C17_a32_adr_refused_iff.
+
+(* the range tests the codecs are built from, modelled operation by operation (RangeModel.v), are exact *)
+Theorem C17_is_encodable_offset_32 : forall off nb, 0 < nb <= 32 -> - 2 ^ 31 <= off < 2 ^ 31 ->
+  is_encodable_offset_32 off nb = (- 2 ^ (nb - 1) <=? off) && (off <? 2 ^ (nb - 1)).
+Proof. exact is_encodable_offset_32_spec. Qed.
+Print Assumptions C17_is_encodable_offset_32.
+
+Theorem C17_is_encodable_offset_64 : forall off nb, 0 < nb <= 64 -> - 2 ^ 63 <= off < 2 ^ 63 ->
+  is_encodable_offset_64 off nb = (- 2 ^ (nb - 1) <=? off) && (off <? 2 ^ (nb - 1)).
+Proof. exact is_encodable_offset_64_spec. Qed.
+Print Assumptions C17_is_encodable_offset_64.
+
+Theorem C17_is_int_n_signed : forall w n x, 0 < n -> n <= w -> - 2 ^ (w - 1) <= x < 2 ^ (w - 1) ->
+  is_int_n_signed w n x = (- 2 ^ (n - 1) <=? x) && (x <? 2 ^ (n - 1)).
+Proof. exact is_int_n_signed_spec. Qed.
+Print Assumptions C17_is_int_n_signed.
+
+Theorem C17_is_int_n_unsigned : forall w n x, 0 < n -> n <= w -> 0 <= x < 2 ^ w ->
+  is_int_n_unsigned w n x = (x <? 2 ^ (n - 1)).
+Proof. exact is_int_n_unsigned_spec. Qed.
+Print Assumptions C17_is_int_n_unsigned.
+
+Theorem C17_is_uint_n_signed : forall w n x, 0 < n -> 0 < w -> - 2 ^ (w - 1) <= x < 2 ^ (w - 1) ->
+  is_uint_n_signed w n x = (0 <=? x) && (x <? 2 ^ n).
+Proof. exact is_uint_n_signed_spec. Qed.
+Print Assumptions C17_is_uint_n_signed.
+
+Theorem C17_is_uint_n_unsigned : forall w n x, 0 < n -> 0 < w -> 0 <= x < 2 ^ w ->
+  is_uint_n_unsigned w n x = (x <? 2 ^ n).
+Proof. exact is_uint_n_unsigned_spec. Qed.
+Print Assumptions C17_is_uint_n_unsigned.
+
+(* ... and the interval tests written in OffsetModel.encode_offset32/64 ARE these functions on the values they get *)
+Theorem C17_signed_check32_faithful : forall o bc, 0 < bc <= 32 -> int64 o ->
+  ((- 2 ^ 31 <=? o) && (o <? 2 ^ 31)) = is_int_n_signed 64 32 o /\
+  (is_int_n_signed 64 32 o = true ->
+   ((- 2 ^ (bc - 1) <=? o) && (o <? 2 ^ (bc - 1))) = is_encodable_offset_32 (sx 32 (wrap 32 o)) bc).
+Proof. exact signed_check32_faithful. Qed.
+Print Assumptions C17_signed_check32_faithful.
+
+Theorem C17_signed_check64_faithful : forall o bc, 0 < bc <= 64 -> int64 o ->
+  ((- 2 ^ (bc - 1) <=? o) && (o <? 2 ^ (bc - 1))) = is_encodable_offset_64 o bc.
+Proof. exact signed_check64_faithful. Qed.
+Print Assumptions C17_signed_check64_faithful.
+
+(* Thumb-2 branch formats AFTER fixes/C17-thumb32-branch-formats.patch (T32FixModel.encode_offset_fixed; the pinned
+   packers stay refuted above): round trip against the architectural decoders, exact refusal; the fixed model is the
+   pinned one except for the two packers *)
+Theorem C17_t32_b_roundtrip : forall f off m,
+  is_t32_b_fmt f -> int64 off -> encode_offset_fixed f off = Some m ->
+  decode_t32_b m * 2 ^ discard f = off /\ 0 <= m < 2 ^ 32.
+Proof. exact t32_b_roundtrip. Qed.
+Print Assumptions C17_t32_b_roundtrip.
+
+Theorem C17_t32_blx_roundtrip : forall f off m,
+  is_t32_blx_fmt f -> int64 off -> encode_offset_fixed f off = Some m ->
+  decode_t32_b m mod 2 = 0 /\ (decode_t32_b m / 2) * 2 ^ discard f = off /\ 0 <= m < 2 ^ 32.
+Proof. exact t32_blx_roundtrip. Qed.
+Print Assumptions C17_t32_blx_roundtrip.
+
+Theorem C17_t32_bcond_roundtrip : forall f off m,
+  is_t32_bcond_fmt f -> int64 off -> encode_offset_fixed f off = Some m ->
+  decode_t32_bcond m * 2 ^ discard f = off /\ 0 <= m < 2 ^ 32.
+Proof. exact t32_bcond_roundtrip. Qed.
+Print Assumptions C17_t32_bcond_roundtrip.
+
+Theorem C17_t32_fixed_refused_iff : forall f off,
+  is_t32_b_fmt f \/ is_t32_blx_fmt f \/ is_t32_bcond_fmt f -> int64 off ->
+  (encode_offset_fixed f off = None <->
+   ~ (off mod 2 ^ discard f = 0 /\ - 2 ^ (bits f - 1) <= off / 2 ^ discard f < 2 ^ (bits f - 1))).
+Proof. exact t32_fixed_refused_iff. Qed.
+Print Assumptions C17_t32_fixed_refused_iff.
+
+Theorem C17_t32_fixed_differs_only_in_packers : forall f off,
+  (is_t32_branch (ty f) = true -> encode_offset32 f off = encode_offset32_t32 false f off) /\
+  (is_t32_branch (ty f) = false -> encode_offset_fixed f off = encode_offset f off).
+Proof. exact (fun f off => conj (encode_offset32_t32_pinned f off) (encode_offset_fixed_other f off)). Qed.
+Print Assumptions C17_t32_fixed_differs_only_in_packers.
+
+(* the model variant the check runs against a tree (probed per packer) is the pinned model / the fixed model at the two ends *)
+Theorem C17_t32_variants : forall f old off,
+  write_offset_var true true f old off = write_offset_fixed f old off /\ write_offset_var false false f old off = write_offset f old off.
+Proof. exact (fun f old off => conj (write_offset_var_fixed f old off) (write_offset_var_pinned f old off)). Qed.
+Print Assumptions C17_t32_variants.
+
+(* bit-field aliases of the a64 assembler (BaseBfx/BaseBfi/BaseBfc/BaseBfm, LSL/LSR/ASR #imm): the (immr, imms) pair
+   the assembler computes makes UBFM perform what the mnemonic says, for every source value; operand checks exact for the
+   extract, raw and shift forms; the insert forms accept lsb + width > size (known finding) *)
+From Verif Require Import Codec.BitfieldModel Codec.BitfieldProofs.
+
+Theorem C17_bitfield_bfx_spec : forall size lsb width, size_ok size -> 0 <= lsb -> 0 <= width ->
+  match encode_bitfield Bfx size lsb width with
+  | Some (r, s) => 1 <= width <= size - lsb /\ r = lsb /\ s = lsb + width - 1 /\ 0 <= r <= s /\ s < size
+  | None => ~ (lsb < size /\ 1 <= width <= size - lsb)
+  end.
+Proof. exact bfx_spec. Qed.
+Print Assumptions C17_bitfield_bfx_spec.
+
+Theorem C17_bitfield_ubfx : forall size lsb width r s src, size_ok size -> 0 <= lsb -> 0 <= width -> 0 <= src < 2 ^ size ->
+  encode_bitfield Bfx size lsb width = Some (r, s) ->
+  ubfm_sem size r s src = (src / 2 ^ lsb) mod 2 ^ width /\ 0 <= r < size /\ 0 <= s < size.
+Proof. exact ubfx_correct. Qed.
+Print Assumptions C17_bitfield_ubfx.
+
+Theorem C17_bitfield_ubfiz : forall size lsb width r s src, size_ok size -> 0 <= lsb -> 0 <= width -> 0 <= src < 2 ^ size ->
+  encode_bitfield Bfi size lsb width = Some (r, s) -> width <= size - lsb ->
+  ubfm_sem size r s src = (src mod 2 ^ width) * 2 ^ lsb /\ 0 <= r < size /\ 0 <= s < size.
+Proof. exact ubfiz_correct. Qed.
+Print Assumptions C17_bitfield_ubfiz.
+
+Theorem C17_bfi_width_check_refuted :
+  exists size lsb width r s src, size_ok size /\ 0 <= src < 2 ^ size /\
+    encode_bitfield Bfi size lsb width = Some (r, s) /\ size - lsb < width /\
+    ubfm_sem size r s src <> ((src mod 2 ^ width) * 2 ^ lsb) mod 2 ^ size.
+Proof. exact bfi_width_check_refuted. Qed.
+Print Assumptions C17_bfi_width_check_refuted.
+
+Theorem C17_bitfield_lsl : forall size sh r s src, size_ok size -> 0 <= sh -> 0 <= src < 2 ^ size ->
+  encode_bitfield ShLsl size sh 0 = Some (r, s) ->
+  ubfm_sem size r s src = (src * 2 ^ sh) mod 2 ^ size /\ 0 <= r < size /\ 0 <= s < size.
+Proof. exact lsl_correct. Qed.
+Print Assumptions C17_bitfield_lsl.
+
+Theorem C17_bitfield_lsr : forall size sh r s src, size_ok size -> 0 <= sh -> 0 <= src < 2 ^ size ->
+  encode_bitfield ShLsr size sh 0 = Some (r, s) ->
+  ubfm_sem size r s src = src / 2 ^ sh /\ 0 <= r < size /\ 0 <= s < size.
+Proof. exact lsr_correct. Qed.
+Print Assumptions C17_bitfield_lsr.
+
+Theorem C17_bitfield_shift_refused_iff : forall size k sh, size_ok size -> 0 <= sh -> (k = ShLsl \/ k = ShLsr) ->
+  (encode_bitfield k size sh 0 = None <-> size <= sh).
+Proof. exact shift_refused_iff. Qed.
+Print Assumptions C17_bitfield_shift_refused_iff.
+
+Theorem C17_bitfield_bfm_raw : forall size immr imms, size_ok size -> 0 <= immr -> 0 <= imms ->
+  match encode_bitfield Bfm size immr imms with
+  | Some (r, s) => r = immr /\ s = imms /\ immr < size /\ imms < size
+  | None => ~ (immr < size /\ imms < size)
+  end.
+Proof. exact bfm_raw_spec. Qed.
+Print Assumptions C17_bitfield_bfm_raw.
